@@ -290,7 +290,7 @@ fn c15_option_setters_validate() {
 // @harness prop=C09 tier=quick expect=pass timeout=900
 // @units encode::SeekTableInterval::filter encode::EncoderSeekPoint::range
 // @bound 3 consecutive frames (first sample offsets and lengths symbolic but contiguous, byte offsets ascending), interval = every n seconds (n 1..=255, any 20-bit rate) or every n frames (n 1..=3)
-// @oracle the selected points are a subsequence of the frames actually written (unchanged sample offset, byte offset and length), in ascending order, starting with the first frame
+// @oracle the selected points are a subsequence of the frames actually written (unchanged sample offset, byte offset and length), in ascending order, starting with the first frame; "every n frames" selects exactly frames 0, n, 2n, ...
 #[kani::proof]
 #[kani::unwind(6)]
 fn c09_seektable_filter_selects_written_frames() {
@@ -339,6 +339,10 @@ fn c09_seektable_filter_selects_written_frames() {
                 assert!(found);
                 if count == 0 {
                     assert!(p.sample_offset == 0);
+                }
+                // "every n-th frame" means frames 0, n, 2n, ...
+                if let SeekTableInterval::Frames(f) = interval {
+                    assert!(next_src - 1 == count * f.get());
                 }
                 count += 1;
             }
@@ -432,12 +436,13 @@ fn model_encoder(total: Option<u64>, written: u64, bytes: u64) -> Encoder<NullSe
 
 // @harness prop=C09,C15,C14 tier=quick expect=pass timeout=900 replay=driver
 // @units encode::Encoder::encode (seek point and sample bookkeeping, declared-length enforcement, append-only output)
-// @stubs encode::encode_frame
+// @stubs encode::encode_frame metadata::write_blocks
 // @bound one encode() call of a 2-sample mono frame from an arbitrary encoder state (samples written so far < 2^36, bytes written so far < 2^40, declared total None or 1..2^36-1)
 // @oracle the seek point recorded for the frame names the sample count and the byte offset before the call and the frame's length; the sample counter advances by the frame length; exceeding a declared total is Err(ExcessiveTotalSamples) and nothing is handed to the frame encoder
 #[kani::proof]
 #[kani::unwind(6)]
 #[kani::stub(encode_frame, stub_encode_frame)]
+#[kani::stub(write_blocks, stub_write_blocks)]
 fn c09_encoder_encode_bookkeeping() {
     let written: u64 = kani::any();
     kani::assume(written < (1 << 36));
